@@ -69,6 +69,24 @@ _counter = itertools.count()
 
 
 def execute(case):
+    """what the stack of the case does; a stack that cannot even be built (a constructor of the
+    code under test raises on a legal stack) is a stack through which nothing is written or read"""
+    try:
+        return execute_(case)
+    except Exception as ex:  # noqa: the exception is the observation
+        n = len(case["stack"])
+        events = []
+        for op in case["ops"]:
+            if op["e"] == "Write":
+                events.append({"e": "Write", "v": op["v"], "pd": 777777, "nw": 0, "L": [{"sd": 0, "pend": 0}] * n, "recs": []})
+            elif op["e"] == "Read":
+                events.append({"e": "Read", "d": 777777, "s": 777777, "u": 777777, "a": 777777, "L": [{"sd": 0, "pend": 0}] * n})
+        if not events:
+            events.append({"e": "Read", "d": 777777, "s": 777777, "u": 777777, "a": 777777, "L": [{"sd": 0, "pend": 0}] * n})
+        return {"stack": case["stack"], "pool": case["pool"], "seed": case.get("seed", 0), "events": events, "raised": type(ex).__name__}
+
+
+def execute_(case):
     """case: {stack:[kinds], pool:{supply,demand,util,alloc}, seed, ops:[{e:Write,v}|{e:Read}|{e:PoolChange,attr,v}|{e:NewLogger,fields}]}"""
     from cobald.interfaces import PoolDecorator
     from cobald.decorator.logger import Logger
